@@ -1,5 +1,57 @@
 /-
-  DDS.Proofs.GenDecodeWrap — work in progress (header completed at the end of the file's history).
+  DDS.Proofs.GenDecodeWrap — the REGENERATED per-store decode wrappers, the sparse store's `MergeWith` and the
+  default mapping constructor, against the hand-written model.
+
+    DDS/Generated/CodeDenseDecode.lean    `DenseStore / CollapsingLowestDenseStore / CollapsingHighestDenseStore
+                                           .DecodeAndMergeWith`   (each: `return DecodeAndMergeWith(s, b, mode)`)
+    DDS/Generated/CodeSparseDecode.lean   `SparseStore.DecodeAndMergeWith`                     (the same)
+    DDS/Generated/CodeSparseMerge.lean    `SparseStore.MergeWith(store Store)`, argument of any type `[StoreI S]`
+    DDS/Generated/CodeMappingCtor.lean    `NewDefaultMapping`
+
+  A. FACTORISATION (`decode_factor`).  For EVERY implementation `S` of `store.Store`, every receiver, input,
+     layout and fuel:  `store.DecodeAndMergeWith fuel s b sf = rmap (replay s ·) (decodeCalls fuel b sf)` — the
+     generic decoder computes a list of calls (`Add(i)` / `AddWithCount(i, c)`) from the bytes alone (the decoder
+     run on the recording store `Log`), then runs them on the receiver.  Three loop lemmas by induction on the
+     fuel (`loop1/2/3_factor`); the control flow never looks at the store.
+  B. PARAMETRICITY (`decode_param_on`, `decode_param`).  A relation kept by the calls of a class `P` is kept by
+     the decoder when the calls of the input are in `P`: same outcome (`.ok/.panic/.nofuel`), same bytes left,
+     same error, related receivers (`ResRel`).  Any fuel.
+  C. Against `Sketch.decodeStore` for any implementation related to the model's stores (`decode_model_ok`,
+     `decode_model_error`, `decode_unknown`), from `GenStoreDecode.DecodeAndMergeWith_ok/_error`: fuel
+     `len(b) + 9`, `NoWrap` (no index leaves int64) for the success half only.
+  D. THE FOUR WRAPPERS.  The wrappers take instance binders (`[StoreI DenseStore]` …) that the proof side must
+     supply; every theorem is stated for EVERY instance `I` whose `AddWithCount` / `Add` run the regenerated
+     functions with a fuel computed from the receiver (`DenseAdds`, `LowAdds`, `HighAdds`, `SparseAdds`: panicking
+     call or non-finite float = receiver unchanged, the conventions of `instance : StoreI Store`); the other two
+     dense-family binders of `CodeDenseDecode` are unused and arbitrary.  Such instances exist: `denseI`
+     (`GenDenseSketch.gdStoreI` carried to the raw structure), `lowI`, `highI`, `sparseI`.
+       dense      `dense_decode_sim`  (every input, fuel: wrapper on `toGen d` ~ generic decoder on `.d d`, relation
+                  `DRel` = image of a plain model store), `dense_decode_ok` (model `some (.ok (st', rest))` ⟹
+                  `st' = .d d'`, plain, wrapper `= .ok (toGen d', bn rest, nil)`), `dense_decode_error`.
+       lowest     `low_decode_sim / _ok / _error`    (`toLow n`, kind `.low n`; fuel of the adds `len(bins)+n+2`)
+       highest    `high_decode_sim / _ok / _error`   (`toHigh n`, kind `.high n`; fuel `extendFuel` at the index)
+       sparse     `sparse_decode_sim / _ok` under `NonnegCall` for the calls of the input (every finite weight
+                  `≥ 0`: the sparse store's contract, `GenSparse` — a negative weight can leave a phantom zero
+                  entry); `sparse_decode_error` unconditional.  No order oracle is involved (adds only).
+     Fuel: the decoder's own loops need `len(b) + 9`; the store calls take their fuel from the instance.
+  E. `SparseStore.MergeWith`.  The Go method has NO same-kind fast path (`store.ForEach(func … s.AddWithCount …)`),
+     so there is no type assertion to translate: the regenerated function is the loop over `StoreI.ForEachList`.
+       `sparse_mergeWith_fold`   any `S`, any receiver, finite bins `l`: `= .ok (addAll g l)` (any fuel)
+       `sparse_mergeWith_any`    `Rep g c`, weights `≥ 0`: `= .ok ⟨c.merge l⟩` — the model's fold of `Content.add`
+       `sparse_mergeWith_model`  argument any model `Store`: `(Store.sp c).mergeWith o = some (.sp g'.counts)`
+       `sparse_mergeWith_perm`, `sparse_mergeWith_sparse`   the enumeration order is irrelevant (any lawful `ord`)
+       `sparse_mergeWith_dense`, `sparse_mergeWith_pag`     argument = regenerated dense / paginated store
+       `sparse_mergeWith_nonfinite`  a non-finite weight in the enumeration: `.panic` (translation artefact: the
+                                 weight is read as a rational; Go would store the Inf/NaN) — outside the model.
+  F. `NewDefaultMapping`.  The Go function takes the relative accuracy as its PARAMETER (there is no built-in
+     `0.01`): `newDefaultMapping_eq` (any `MOps F`): `= NewLogarithmicMapping α`; over the reals
+     `newDefaultMapping_ofAlpha` (`= (toGenLog (Mapping.ofAlpha .log α), nil)` for `0 < α < 1`),
+     `newDefaultMapping_err`, `newDefaultMapping_params` (`gamma = (1+α)/(1-α)`, offset `0`, multiplier
+     `1 / ln gamma`, `RelativeAccuracy() = α`), `newDefaultMapping_one_percent` (`α = 1/100`: `gamma = 101/99`).
+  G. kernel-checked runs of the four concrete instances.
+
+  DISAGREEMENTS: none new.  Inherited: the int64 wrap of the running index (`GenStoreDecode.wrap_counterexample`,
+  excluded by `NoWrap`), negative weights in the sparse store, non-finite weights (`.panic` in E, ignored in D).
 -/
 import DDS.Generated.CodeDenseDecode
 import DDS.Generated.CodeSparseDecode
@@ -831,6 +883,45 @@ theorem sparse_mergeWith_nonfinite {S : Type} [StoreI S] (fuel : Nat) (o : S)
   rw [this _ hx]
   rfl
 
+/-! ### the order of the enumeration does not matter; arguments that are regenerated stores -/
+
+/-- merging a permutation of the bins gives the same canonical content -/
+theorem merge_perm (c : Content) (l l' : List (Int × Rat)) (hc : c.WF) (hp : l'.Perm l)
+    (hpos : ∀ p ∈ l, 0 ≤ p.2) : c.merge l' = c.merge l :=
+  Content.ext _ _ (Content.wf_merge_of_nonneg c l' hc (fun p hp' => hpos p (hp.mem_iff.1 hp')))
+    (Content.wf_merge_of_nonneg c l hc hpos)
+    (fun j => by rw [Content.lookup_merge, Content.lookup_merge, perm_lookup hp j])
+
+/-- the argument may enumerate its bins in any order (Go's `ForEach` over a map has no fixed order) -/
+theorem sparse_mergeWith_perm {S : Type} [StoreI S] (fuel : Nat) (g : SparseStore) (c : Content) (h : Rep g c)
+    (o : S) (l l' : List (Int × Rat)) (hl : StoreI.ForEachList o = finBins l') (hp : l'.Perm l)
+    (hpos : ∀ p ∈ l, 0 ≤ p.2) :
+    SparseStore.MergeWith fuel g o = .ok ⟨c.merge l⟩ := by
+  rw [(sparse_mergeWith_any fuel g c h o l' hl (fun p hp' => hpos p (hp.mem_iff.1 hp'))).1,
+    merge_perm c l l' h.2 hp hpos]
+
+/-- sparse into sparse, the argument ranged over in ANY lawful order `ord` (the instance's `ForEachList` being
+    the regenerated `range` over the map): the receiver ends with the merge of the two contents -/
+theorem sparse_mergeWith_sparse (I : StoreI SparseStore) (ord : MapOrder) (hord : ord.Lawful)
+    (hI : ∀ o : SparseStore, I.ForEachList o = finBins (mrange ord o.counts))
+    (fuel : Nat) (g : SparseStore) (c : Content) (h : Rep g c) (o : SparseStore) (co : Content) (ho : Rep o co) :
+    @SparseStore.MergeWith SparseStore I fuel g o = .ok ⟨c.merge co⟩ := by
+  obtain ⟨rfl, hwf⟩ := ho
+  exact @sparse_mergeWith_perm SparseStore I fuel g c h o o.counts (mrange ord o.counts) (hI o)
+    (mrange_perm ord hord o.counts hwf.1) (fun p hp => Rat.le_of_lt (hwf.2 p hp))
+
+/-- argument = the regenerated dense store (`GenDenseSketch.GDS`, whose `ForEachList` is the model image's bins) -/
+theorem sparse_mergeWith_dense (fuel : Nat) (g : SparseStore) (c : Content) (h : Rep g c)
+    (x : GenDenseSketch.GDS) (hpos : ∀ p ∈ (GenDense.ofGen x.g).binsList.getD [], 0 ≤ p.2) :
+    SparseStore.MergeWith fuel g x = .ok ⟨c.merge ((GenDense.ofGen x.g).binsList.getD [])⟩ :=
+  (sparse_mergeWith_any fuel g c h x _ rfl hpos).1
+
+/-- argument = the regenerated buffered-paginated store (`GenPagSketch.GPS`) -/
+theorem sparse_mergeWith_pag (grow : Int → Int → Int) (fuel : Nat) (g : SparseStore) (c : Content) (h : Rep g c)
+    (x : GenPagSketch.GPS grow) (hpos : ∀ p ∈ (GenPag.ofGen x.g).binsList, 0 ≤ p.2) :
+    SparseStore.MergeWith fuel g x = .ok ⟨c.merge (GenPag.ofGen x.g).binsList⟩ :=
+  (sparse_mergeWith_any fuel g c h x _ rfl hpos).1
+
 end sparseMerge
 
 /-! ## Dsparse. `SparseStore.DecodeAndMergeWith` -/
@@ -986,5 +1077,39 @@ theorem newDefaultMapping_one_percent :
   · rw [hg]; norm_num
 
 end mappingCtor
+
+/-! ## G. kernel-checked runs (non-vacuity of the instances and hypotheses) -/
+
+section examples
+open DDS.Gen.Sparse
+
+/-- the successful result of a run, if any -/
+def okOf {α : Type} : Res α → Option α
+  | .ok a => some a
+  | _ => none
+
+/-- layout "index deltas", 2 bins, deltas `+3, +1` (zig-zag `6, 2`), one byte left over: the calls are
+    `Add(3)`, `Add(4)` -/
+example : decodeCalls 12 [2#8, 6#8, 2#8, 7#8] BinEncodingIndexDeltas
+    = .ok (⟨[(3, none), (4, none)]⟩, [7#8], GoErr.nil) := by rfl
+
+/-- the dense wrapper with `denseI` on `NewDenseStore()`: total 2, window `[3, 4]`, byte `7` left, nil -/
+example : (okOf (@Gen.DenseDecode.DenseStore.DecodeAndMergeWith denseI lowI highI 12 Gen.Dense.NewDenseStore
+      [2#8, 6#8, 2#8, 7#8] BinEncodingIndexDeltas)).map
+        (fun r => (r.1.count, r.1.minIndex, r.1.maxIndex, r.2)) = some (2, 3, 4, [7#8], GoErr.nil) := by
+  decide +kernel
+
+/-- the sparse wrapper with `sparseI` on `NewSparseStore()` -/
+example : okOf (@Gen.SparseDecode.SparseStore.DecodeAndMergeWith sparseI 12 NewSparseStore
+      [2#8, 6#8, 2#8, 7#8] BinEncodingIndexDeltas) = some (⟨[(3, 1), (4, 1)]⟩, [7#8], GoErr.nil) := by
+  decide +kernel
+
+/-- `SparseStore.MergeWith` with a regenerated DENSE store as argument (fuel 0: the loop is structural) -/
+example : okOf (Gen.SparseMerge.SparseStore.MergeWith 0 (NewSparseStore.AddWithCount 4 2)
+      (GenDenseSketch.gAdd (GenDenseSketch.gAdd ⟨Gen.Dense.NewDenseStore⟩ 3) 4))
+    = some ⟨[(3, 1), (4, 3)]⟩ := by
+  decide +kernel
+
+end examples
 
 end DDS.GenDecodeWrap
